@@ -62,10 +62,9 @@ func logTail(calls []string, n int) []string {
 func C09(tier string) int {
 	res := NewResult("C09", tier, "fault_enumeration")
 	bound := 1
-	corpus := Corpus()
+	corpus := append(Corpus(), AddressingCorpus()...)
 	if res.Thorough() {
 		bound = 2
-		corpus = append(corpus, AddressingCorpus()...)
 	}
 	res.Rule = fmt.Sprintf("for each of %d scenarios (every default side-effect path of both protocols, delivery, forwarding, GET endpoints): the fault-free run and every run with <= %d of its fallible seam calls (Database incl. Lock/Unlock, Transport, NewTransport, callbacks) failing, enumerated depth-first by choice list; non-trivial = a run in which the library took at least one lock; distinct = (scenario, choice list)", len(corpus), bound)
 	res.Assumptions = []string{"an erroring Unlock still frees the lock, an erroring Lock does not acquire it",
